@@ -44,6 +44,11 @@ def run(ctx):
     runner.prove(ctx, MODULE, THEOREMS, FILES)
     pairs = valcases.scalar_corpus() + valcases.schema_batch(ctx, ctx.n(150, 1200), customs=False, aliases=False,
                                                               max_depth=ctx.n(4, 5))
+    if not ctx.quick():
+        # thorough: EVERY schema of the small scope (round trip on the real code + printed text vs the model)
+        from .. import smallscope
+        pairs = pairs + [(x, None) for x in smallscope.schemas()]
+        ctx.cov["smallscope_schemas"] = len(smallscope.schemas())
     # results of substitution are declarable schemas as well
     extra = []
     for s, w in pairs[: ctx.n(40, 300)]:
